@@ -56,7 +56,7 @@ impl<'a> G<'a> {
     fn tp(&mut self) { if self.open_parens > 0 { self.trunc_points.push((self.out.len(), self.open_parens, self.open_calls)); } }
     fn anchor(&mut self) -> usize { self.anchors.push(self.out.len()); self.anchors.len() - 1 }
     // insignificant whitespace/comments (hidden)
-    fn ows(&mut self) { match self.u.below(9) { 0 | 1 | 2 | 3 => {} 4 => self.mark(" ", MK::HiddenWs), 5 => self.mark("\n", MK::HiddenWs), 6 => self.mark("  \t", MK::HiddenWs), 7 => { self.uws(); } _ => { self.mark("/*c,=;)*/", MK::HiddenWs); self.feat("comment-in-gap"); } } }
+    fn ows(&mut self) { match self.u.below(9) { 0 | 1 | 2 | 3 => {} 4 => self.mark(" ", MK::HiddenWs), 5 => self.mark("\n", MK::HiddenWs), 6 => self.mark("  \t", MK::HiddenWs), 7 => { self.uws(); } _ => { if self.u.coin(1, 4) { self.mark("/*a*//*b,(*/", MK::HiddenWs); } else if self.u.coin(1, 4) { self.mark("/*a*/ /*b*/\n", MK::HiddenWs); } else { self.mark("/*c,=;)*/", MK::HiddenWs); } self.feat("comment-in-gap"); } } }
     fn rws(&mut self) { match self.u.below(9) { 0 | 1 | 2 | 3 => self.mark(" ", MK::HiddenWs), 4 | 5 => self.mark("\n", MK::HiddenWs), 6 => self.uws(), _ => self.mark(" /*c*/ ", MK::HiddenWs) } }
     // whitespace that is not ASCII (the lexer's whitespace is Unicode White_Space)
     fn uws(&mut self) { self.feat("non-ascii-whitespace-gap"); let w = self.pick(&["\u{a0}", "\u{2003}", "\u{b}", "\u{3000} ", "\u{85}", " \u{2028}", "\u{c}", "\u{1680}\t"]); self.mark(w, MK::HiddenWs); }
@@ -111,6 +111,7 @@ impl<'a> G<'a> {
         let n = 1 + self.u.below(6);
         let mut prev_wordlike = false;
         let mut sig = false; // a significant (non-comment) token has been emitted in this statement
+        if self.u.coin(1, 40) { self.feat("nul-character"); self.p("\0"); }
         for i in 0..n {
             let mut k = self.u.below(12);
             if !sig && matches!(k, 5 | 10) { k = 0; }
@@ -193,6 +194,11 @@ impl<'a> G<'a> {
     // a macro argument value. top_comma_terminates: whether a top-level comma would end the value (so we never emit one unmasked)
     fn arg_value(&mut self, _top: bool) {
         let n = self.u.below(4);
+        self.arg_pieces(n);
+        // a literal '%' as the last character of the value: the delimiter that follows must still be seen
+        if self.u.coin(1, 8) { self.feat("literal-percent-before-delimiter"); let w = self.pick(&["5%", "x %", "95 %", "%"]); if w == "%" && self.out.ends_with('%') { self.p(" "); } self.p(w); self.tp(); }
+    }
+    fn arg_pieces(&mut self, n: usize) {
         for _ in 0..n {
             self.tp();
             match if self.depth > 5 { self.u.below(3) } else { self.u.below(12) } {
@@ -242,6 +248,7 @@ impl<'a> G<'a> {
                 _ => { self.d_inc(); self.user_call(2); self.depth -= 1; if !self.out.ends_with(')') { self.p(" w"); } }
             }
         }
+        if self.u.coin(1, 8) { self.feat("literal-percent-before-delimiter"); self.p(" 5%"); self.tp(); }
     }
     // a macro statement written inside an argument value ("inline macro statements in macro calls" of the lexer's tests):
     // its own '=' and ';' are delimiter tokens, the text around it stays argument text
@@ -278,7 +285,7 @@ impl<'a> G<'a> {
         self.d_inc();
         match k {
             0 => { self.pk("%eval"); self.ows(); self.del_mark("(", "LPAREN", "MissingExpectedLParen", false); self.ows(); self.eval_expr(false, false); self.ows_after_expr(); self.mark(")", MK::Delim("RPAREN", false)); }
-            1 => { self.feat("sysevalf"); self.pk("%sysevalf"); self.ows(); self.del_mark("(", "LPAREN", "MissingExpectedLParen", false); self.ows(); self.eval_expr(true, true); if self.u.coin(1, 3) { self.mark(",", MK::Delim("COMMA", false)); self.ows(); self.p("boolean"); } self.mark(")", MK::Delim("RPAREN", false)); }
+            1 => { self.feat("sysevalf"); self.pk("%sysevalf"); self.ows(); self.del_mark("(", "LPAREN", "MissingExpectedLParen", false); self.ows(); self.eval_expr(true, false); if self.u.coin(1, 3) { self.mark(",", MK::Delim("COMMA", false)); self.ows(); self.p("boolean"); } self.mark(")", MK::Delim("RPAREN", false)); }
             2 => { self.feat("scan"); let nm = self.pick(&["%scan", "%qscan", "%SCAN", "%kscan", "%qkscan", "%QKScan"]); self.p(nm); self.ows(); self.del_mark("(", "LPAREN", "MissingExpectedLParen", false); self.ows(); self.bvalue(); let close_anchor_needed = self.out.len(); let _ = close_anchor_needed; let di = self.dels.len(); self.del_mark(",", "COMMA", "MissingExpectedComma", false); self.ows(); self.eval_expr(false, true); if self.u.coin(1, 2) { self.mark(",", MK::Delim("COMMA", false)); self.ows(); if self.u.coin(1, 2) { self.p("|"); self.mark("(", MK::Masked); self.p(" "); self.mark(")", MK::Masked); } else { self.bvalue(); } if self.u.coin(1, 2) { self.feat("scan-modifiers"); self.mark(",", MK::Delim("COMMA", false)); self.ows(); if self.u.coin(1, 2) { self.p("m"); } else { self.bvalue(); } } self.dels.remove(di); } else { let a = self.anchor(); self.dels[di].at_mark = Some(a); } self.mark(")", MK::Delim("RPAREN", false)); }
             3 => { self.feat("substr"); let nm = self.pick(&["%substr", "%qsubstr", "%ksubstr", "%qksubstr", "%SUBSTR", "%QKsubstr"]); self.p(nm); self.ows(); self.del_mark("(", "LPAREN", "MissingExpectedLParen", false); self.ows(); self.bvalue(); let di = self.dels.len(); self.del_mark(",", "COMMA", "MissingExpectedComma", false); self.ows(); self.eval_expr(false, true); if self.u.coin(1, 2) { self.mark(",", MK::Delim("COMMA", false)); self.ows(); self.eval_expr(false, true); self.dels.remove(di); } else { let a = self.anchor(); self.dels[di].at_mark = Some(a); } self.mark(")", MK::Delim("RPAREN", false)); }
             4 => { self.feat("one-arg-masking"); let nm = self.pick(&["%upcase", "%length", "%index", "%quote", "%bquote", "%nrbquote", "%superq", "%unquote", "%symexist", "%sysget", "%qupcase", "%qlowcase", "%nrquote", "%kupcase", "%klength", "%kindex", "%qkupcase", "%qklowcase", "%sysmexecname", "%sysprod", "%symglobl", "%symlocal", "%sysmacexec", "%sysmacexist", "%UPCASE", "%Length"]); self.p(nm); self.ows(); self.del_mark("(", "LPAREN", "MissingExpectedLParen", false); self.ows(); self.simple_value(); if self.u.coin(1, 2) { self.mark(",", MK::Masked); self.p("t"); } self.mark(")", MK::Delim("RPAREN", false)); }
@@ -324,9 +331,19 @@ impl<'a> G<'a> {
 
     // ---------- eval expressions
     // float: sysevalf-like numeric mode; comma_term: a top-level comma terminates (so don't emit)
-    fn eval_expr(&mut self, float: bool, _comma_term: bool) {
+    fn eval_expr(&mut self, float: bool, comma_term: bool) {
         self.feat("eval-expr");
         self.d_inc();
+        let _ = float;
+        if comma_term && self.depth < 5 && self.u.coin(1, 10) {
+            // a parenthesised group with a comma inside an expression argument: the comma does not end the argument
+            self.feat("comma-in-expression-parens");
+            let f = self.pick(&["max", "min", ""]); self.p(f);
+            // (what is inside such a group is argument text for the lexer: no operand or whitespace marks)
+            self.mark("(", MK::Op("LPAREN")); let w = self.pick(&["1", "a", "&v", "x y", "0"]); self.p(w); self.mark(",", MK::Masked); let w = self.pick(&["2", " b", "&v.", "0", " 0"]); self.p(w); self.mark(")", MK::Op("RPAREN"));
+            self.depth -= 1; self.last_int = false;
+            return;
+        }
         let n = 1 + if self.depth > 5 { 0 } else { self.u.below(3) };
         let mut prev_int = false;
         for i in 0..n {
@@ -359,7 +376,7 @@ impl<'a> G<'a> {
         match k {
             0 | 1 => { let s = self.pick(&["0", "1", "42", "100", "0ffx", "007"]); self.mark(s, MK::IntOperand); self.tp(); }
             2 => self.mvar(true),
-            3 => { let w = self.pick(&["abc", "x1", "txt", "é", "a b c", "1 2 3", "x.y", "a_1 b"]); self.p(w); }
+            3 => { let w = self.pick(&["abc", "x1", "txt", "é", "a b c", "1 2 3", "x.y", "a_1 b", "rate", "size", "SCALE", "value", "base", "type"]); self.p(w); }
             4 => { self.feat("eval-parens"); self.mark("(", MK::Op("LPAREN")); self.ows(); self.eval_expr(float, false); self.gap_after_expr(); self.mark(")", MK::Op("RPAREN")); }
             5 => { self.user_call(2); self.p(" "); }
             6 => { self.d_inc(); self.builtin_call(2); self.depth -= 1; }
@@ -400,7 +417,12 @@ impl<'a> G<'a> {
         self.mark("(", MK::Delim("LPAREN", hidden)); let w = self.pick(&["b", "a b", "x1", "v"]); self.p(w); self.tp(); self.mark(")", MK::Delim("RPAREN", hidden));
     }
     fn put_stmt(&mut self) { self.feat("put"); self.pk("%put"); self.rws(); if self.u.coin(1, 6) { let t = self.pick(&["_all_", "_user_", "_LOCAL_", "NOTE: done", "ERROR- bad value", "WARNING: x=", "&=v", "&=v &=v"]); self.p(t); self.p(" "); } self.text_expr(); self.mark(";", MK::Delim("SEMI", false)); }
-    fn comment_stmt(&mut self) { self.feat("comment-stmt"); match self.u.below(4) { 0 => self.p("* a comment, with 'stuff;"), 1 => self.p("%* macro comment 'with ; quoted' \"and ;\";"), 2 => self.p("/* block ; comment */"), _ => self.p("*;") } }
+    fn comment_stmt(&mut self) {
+        self.feat("comment-stmt");
+        // outside macro definitions a '*' statement is a comment whatever macro code it mentions
+        if self.in_macro == 0 && self.u.coin(1, 4) { self.feat("star-comment-with-macro-code"); let c = self.pick(&["* %put it's on;", "* x %let y=1;", "* call %m(a;", "*%do i=1 %to 3;", "* &v %end \"q;", "* %if a %then b;"]); self.p(c); return; }
+        match self.u.below(4) { 0 => self.p("* a comment, with 'stuff;"), 1 => self.p("%* macro comment 'with ; quoted' \"and ;\";"), 2 => self.p("/* block ; comment */"), _ => self.p("*;") }
+    }
     fn datalines_block(&mut self) { if self.in_macro > 0 { return self.open_stmt(); } self.feat("datalines"); if !self.out.trim_end_matches(|c: char| c.is_whitespace()).ends_with(';') && !self.out.is_empty() { self.p(";"); } match self.u.below(4) { 0 => self.p("datalines;\n1 2 3\nabc def\n;"), 1 => self.p("cards ;\n;"), 2 => self.p("DATALINES4;\na;b;;;c\n'x\n;;;;"), _ => self.p("lines;\n%notmacro &x /* not comment\n;") } }
     fn if_stmt(&mut self) {
         self.feat("if"); self.pk("%if"); self.rws(); self.eval_expr(false, false); self.rgap_after_expr(); self.pk("%then"); self.rws();
@@ -437,7 +459,7 @@ impl<'a> G<'a> {
             0 => { self.pk("%return"); self.ows(); self.del_mark(";", "SEMI", "MissingExpectedSemiOrEOF", false); }
             1 => { self.pk("%symdel"); self.rws(); self.name_expr(); if self.u.coin(1, 2) { self.p(" "); self.name_expr(); } if self.u.coin(2, 3) { self.p(" / nowarn"); } self.ows(); self.p(";"); }
             2 => { self.pk("%sysexec"); self.rws(); self.p("ls -l /tmp"); self.p(";"); }
-            3 => { self.pk("%syscall"); self.rws(); let f = self.pick(&["ranuni", "streaminit", "symput", "set"]); self.p(f); self.ows(); self.del_mark("(", "LPAREN", "MissingExpectedLParen", false); self.ows(); let n = 1 + self.u.below(3); for i in 0..n { if i > 0 { self.mark(",", MK::Delim("COMMA", false)); self.ows(); } match self.u.below(5) { 0 | 1 => self.mvar(true), 2 => { let w = self.pick(&["seed", "x", "abc"]); self.p(w); } 3 => { let w = self.pick(&["1", "42"]); self.mark(w, MK::IntOperand); } _ => self.p("'a,b'") } } self.mark(")", MK::Delim("RPAREN", false)); self.ows(); self.del_mark(";", "SEMI", "MissingExpectedSemiOrEOF", false); }
+            3 => { self.pk("%syscall"); self.rws(); let f = self.pick(&["ranuni", "streaminit", "symput", "set"]); self.p(f); self.ows(); self.del_mark("(", "LPAREN", "MissingExpectedLParen", false); self.ows(); let n = 1 + self.u.below(3); for i in 0..n { if i > 0 { self.mark(",", MK::Delim("COMMA", false)); self.ows(); } match self.u.below(6) { 0 | 1 => self.mvar(true), 2 => { let w = self.pick(&["seed", "x", "abc"]); self.p(w); } 3 => { let w = self.pick(&["1", "42"]); self.mark(w, MK::IntOperand); } 4 => { self.feat("comma-in-expression-parens"); let f = self.pick(&["max", "", "min"]); self.p(f); self.mark("(", MK::Op("LPAREN")); let w = self.pick(&["1", "&v", "a"]); self.p(w); self.mark(",", MK::Masked); let w = self.pick(&["2", " &v", "b"]); self.p(w); self.mark(")", MK::Op("RPAREN")); } _ => self.p("'a,b'") } } self.mark(")", MK::Delim("RPAREN", false)); self.ows(); self.del_mark(";", "SEMI", "MissingExpectedSemiOrEOF", false); }
             4 => { self.pk("%include"); self.rws(); self.p("'file.sas'"); self.ows(); self.p(";"); }
             5 => { match self.u.below(10) {
                     0 => { self.pk("%abort"); if self.u.coin(1, 2) { let o = self.pick(&[" cancel", " abend 4", " return"]); self.p(o); } self.ows(); self.p(";"); }
